@@ -72,6 +72,9 @@ Section Accept.
   Variable cluster_of : Z -> list Z.     (* producer set in force after Update(block id) *)
   Variable cap : nat.                    (* orphan pool capacity (>= 1) *)
   Variable genesis : block.
+  (** source flag: reorg() also puts the consensus back on the best block when rollforward fails
+      (fixes/F42_reorg_restore_consensus.diff; false for the code without that repair) *)
+  Variable f42 : bool.
 
   Definition init : node :=
     {| n_store := [genesis]; n_main := [genesis]; n_orph := []; n_errs := []; n_upd := b_id genesis |}.
@@ -183,7 +186,8 @@ Section Accept.
         let s1 := with_upd s (b_id root) in            (* rollback: Update(branch root) *)
         let '(s2, r, c) := rollforward s1 (rev news) in
         let calls := [2; b_no root; 3; b_id root] ++ c in
-        if is_err r then (s2, r, calls)
+        if is_err r then
+          if f42 then (with_upd s2 (b_id (best s2)), r, calls ++ [3; b_id (best s2)]) else (s2, r, calls)
         else (with_main s2 (news ++ drop_until (b_id root) (n_main s2)), R_ok, calls)  (* swapChain *)
     end.
 
@@ -247,12 +251,12 @@ Definition observe (all : list Z) (s : node) (r : Z) (c : list Z) : obs :=
    filter (fun i => mem_z i (n_errs s)) all,
    n_upd s).
 
-Fixpoint trace iv cl cap g (all : list Z) (evs : list (block * Z)) (s : node) : list obs :=
+Fixpoint trace iv cl cap g f42 (all : list Z) (evs : list (block * Z)) (s : node) : list obs :=
   match evs with
   | [] => []
   | (b, now) :: tl =>
-      let '(s1, r, c) := arrive iv cl cap g s b now in
-      observe all s1 r c :: trace iv cl cap g all tl s1
+      let '(s1, r, c) := arrive iv cl cap g f42 s b now in
+      observe all s1 r c :: trace iv cl cap g f42 all tl s1
   end.
 
 Fixpoint assoc_cluster (m : list (Z * list Z)) (i : Z) : list Z :=
@@ -276,9 +280,9 @@ Fixpoint first_diff (a b : list obs) (i : Z) : Z :=
   | _, _ => i
   end.
 (** a scenario: interval, producer-set map, capacity, all ids, arrivals with clock, observed *)
-Definition scen_diff (iv : Z) (cm : list (Z * list Z)) (cap : nat) (g : block) (all : list Z)
+Definition scen_diff (iv : Z) (cm : list (Z * list Z)) (cap : nat) (g : block) (f42 : bool) (all : list Z)
   (evs : list (block * Z)) (observed : list obs) : Z :=
-  first_diff (trace iv (assoc_cluster cm) cap g all evs (init g)) observed 1.
+  first_diff (trace iv (assoc_cluster cm) cap g f42 all evs (init g)) observed 1.
 
 (** ---- the other consensus types anchored by C09: what THEIR VerifyTimestamp / VerifySign /
     IsBlockValid test (a triple of answers).
